@@ -28,6 +28,8 @@ pub struct PoolRun {
     pub users: Vec<Addr>,
     pub ptype: PairType,
     pub wrong_path: bool,
+    /// what the next native swap attaches (see `swap`); reset to 0 by every swap
+    pub funds_mode: u8,
 }
 
 pub const USERS: [&str; 3] = ["user1", "user2", "user3"];
@@ -37,8 +39,12 @@ fn dec_to_atomics(d: Decimal) -> u128 {
 }
 
 impl PoolRun {
-    pub fn new(kinds: [bool; 2], decimals: [u8; 2], fees: [u128; 3], ptype: PairType, fund: u128) -> PoolRun {
+    pub fn new(kinds: [bool; 2], decimals: [u8; 2], fees: [u128; 3], ptype: PairType, fund: u128) -> PoolRun { PoolRun::new_spelled(kinds, decimals, fees, ptype, fund, false) }
+
+    /// `upper`: the pair is created with its cw20 assets' addresses spelled in upper case
+    pub fn new_spelled(kinds: [bool; 2], decimals: [u8; 2], fees: [u128; 3], ptype: PairType, fund: u128, upper: bool) -> PoolRun {
         let mut w = World::new();
+        w.spell_upper = upper;
         let collector = w.new_fee_collector();
         let factory = w.new_pool_factory(&collector);
         let mut assets: Vec<A> = vec![];
@@ -73,6 +79,7 @@ impl PoolRun {
             users,
             ptype,
             wrong_path: false,
+            funds_mode: 0,
         }
     }
 
@@ -229,8 +236,19 @@ impl PoolRun {
                 return (r, dpre, dpost);
             }
         }
+        // `funds_mode`: what a NATIVE offer attaches - 0 exactly the offer; 1 nothing; 2 one unit less; 3 one unit more;
+        // 4 the offer in the pair's other native asset.  Anything but 0 pays in something else than it declares: to be refused
+        let mode = std::mem::take(&mut self.funds_mode);
         let r = match self.assets[dir].clone() {
-            A::Native(dn) => self.w.exec(
+            A::Native(dn) => {
+                let funds: Vec<Coin> = match mode {
+                    1 => vec![],
+                    2 if offer > 1 => vec![coin(offer - 1, dn)],
+                    3 => vec![coin(offer + 1, dn)],
+                    4 => match self.assets[1 - dir].clone() { A::Native(d2) => vec![coin(offer, d2)], _ => vec![] },
+                    _ => vec![coin(offer, dn)],
+                };
+                self.w.exec(
                 &u,
                 &self.pair.clone(),
                 &ExecuteMsg::Swap {
@@ -239,8 +257,8 @@ impl PoolRun {
                     max_spread: max_spread.map(dec_atomics),
                     to: to_s,
                 },
-                &[coin(offer, dn)],
-            ),
+                &funds,
+            ) }
             A::Cw20(t) => self.w.cw20_send(
                 &u,
                 &t,
@@ -257,6 +275,8 @@ impl PoolRun {
         (r, dpre, dpost)
     }
 }
+
+const FUNDS_MODES: [&str; 5] = ["exact", "none", "less", "more", "other"];
 
 fn lead_digits(x: &str) -> String {
     let d: String = x.trim().chars().take_while(|c| c.is_ascii_digit()).collect();
@@ -491,12 +511,17 @@ pub fn run_random(rec: &mut Rec, seed: u64, run: u64, nops: usize, stable: bool)
                 // one swap in ten with a cw20 offer names it in the direct message instead of sending the tokens
                 let wrong = matches!(p.assets[dir], A::Cw20(_)) && r.gen_range(0..10) == 0;
                 p.wrong_path = wrong;
+                // one native offer in eight attaches something else than it declares (nothing, one unit less or more, the other asset)
+                let fm: u8 = if matches!(p.assets[dir], A::Native(_)) && r.gen_range(0..8) == 0 { r.gen_range(1..5u8) } else { 0 };
+                let fm = if fm == 2 && offer <= 1 { 1 } else { fm };
+                let fm = if fm == 4 && !matches!(p.assets[1 - dir], A::Native(_)) { 1 } else { fm };
+                p.funds_mode = fm;
                 let (rs, dpre, dpost) = p.swap(ui, dir, offer, to, ms, belief);
                 let g = |k: &str| rs.attr("swap", k).unwrap_or("0".into());
                 ev.insert("ev".into(), json!("swap"));
                 ev.insert("actor".into(), json!(USERS[ui]));
                 ev.insert("args".into(), json!({"dir": dir + 1, "offer": s(offer), "to": USERS[to],
-                    "ms": opt_s(ms), "bp": opt_s(belief), "wrong_path": wrong}));
+                    "ms": opt_s(ms), "bp": opt_s(belief), "wrong_path": wrong, "funds": FUNDS_MODES[fm as usize]}));
                 // the reverse quote for what the forward quote promises
                 let ask: u128 = sim["ret"].as_str().and_then(|x| x.parse().ok()).unwrap_or(0);
                 let rsim = if ask > 0 { p.reverse_simulate(dir, ask) } else { json!({"res": "none", "ask": "0", "offer": "0", "fwd": "0", "fwd_res": "none"}) };
